@@ -62,6 +62,12 @@ type Engine struct {
 }
 
 func NewEngine(c *core.Ctx, cfg Config) (*Engine, error) {
+	// every other case: the indexed fields of the employee store are known to callers under other names than they are
+	// stored under (override tables registered by the entity strategy)
+	ApiNames = c.CaseIdx%2 == 1
+	if ApiNames {
+		c.Count("cases_with_api_names_for_indexed_fields", 1)
+	}
 	sc := schema.Build(Defs(cfg))
 	path := c.TempFile("k")
 	db, err := sc.OpenDb(path)
@@ -136,6 +142,9 @@ func checker(st *schema.St, fields []string) boltz.FieldChecker {
 	keys := map[string]string{}
 	for _, f := range st.AllFields() {
 		keys[f.Name] = f.StoreKey()
+		if f.ApiName != "" {
+			keys[f.Name] = f.ApiName // the strategy maps the storage key to this name (WithFieldOverrides)
+		}
 	}
 	m := boltz.MapFieldChecker{}
 	for _, f := range fields {
